@@ -934,7 +934,7 @@ class Columns(Widget, WidgetContainerMixin, WidgetContainerListContentsMixin):
 
         if len(size) == 1:
             if heights:
-                max_height = max(heights.values())
+                max_height = max(1, *heights.values())
                 if box_need_height:
                     warnings.warn(
                         f"Widgets in columns {box_need_height} "
